@@ -48,7 +48,7 @@ TIERS = {
 FAULT_KINDS = ["illtyped_construct", "illtyped_subst", "unsupported", "undefined_symbol", "bad_smtlib", "bad_hr",
                "unsupported_command", "redefine_symbol", "stream_eio", "solver_convert", "solver_unknown",
                "script_strict", "parse_declares", "bad_interpretation", "arith_error_subst", "sl_error", "bad_size_measure",
-               "nonincr_is_sat", "readd_solver", "model_incomplete", "bad_preference_list", "solver_reset_refused", "script_evaluate"]
+               "nonincr_is_sat", "readd_solver", "model_incomplete", "bad_preference_list", "solver_reset_refused", "script_evaluate", "solver_pop_too_many", "printer_unsupported"]
 SERVICES = ["simplify", "substitute", "free_vars", "atoms", "theory", "types", "size", "serialize", "to_smtlib",
             "nnf", "cnf", "aig", "prenex", "is_qf", "logic", "model_value"]
 
@@ -250,6 +250,9 @@ def gen_plan(tape, cfg):
                 o["how"] = tape.choice(["nonbool", "convert"], "nonincr.how")
             elif kind == "readd_solver":
                 o["name"] = "gen%d" % tape.draw(2, "readd.name")
+            elif kind == "printer_unsupported":
+                o["t"] = _embed_xnode(tape, t)
+                o["printer"] = tape.choice(PRINTERS, "badprint.kind")
             elif kind == "script_evaluate":
                 o["f"] = bp.gen_term(tape, bp.BOOL, 2, sctx)
                 o["prio"] = tape.choice(["single-obj", "lex", "box"], "seval.prio")
@@ -268,8 +271,11 @@ def gen_plan(tape, cfg):
         if pending_retry and tape.chance(1, 3, "retry.now"):
             ops.append(pending_retry.pop(0))
             continue
-        k = tape.weighted([(8, "call"), (2, "parse"), (3, "solver"), (1, "script"), (3, "sl"), (2, "hr")], "op.kind")
-        if k == "hr":
+        k = tape.weighted([(8, "call"), (2, "parse"), (3, "solver"), (1, "script"), (3, "sl"), (2, "hr"), (2, "print_long")], "op.kind")
+        if k == "print_long":
+            ops.append({"op": "print_long", "i": tape.draw(len(pool), "print.formula"),
+                        "printer": tape.choice(PRINTERS, "print.kind")})
+        elif k == "hr":
             nm = tape.choice(["nope", "undefined_", "k9", "p", "q"], "hr.name")
             ops.append({"op": "hr", "name": nm, "text": tape.choice(["p & %s", "(%s | q) -> p", "!%s"], "hr.text") % nm})
             continue
@@ -277,7 +283,7 @@ def gen_plan(tape, cfg):
             # (declaring fresh-looking names by hand is left to C14: a failed parse legitimately
             # leaves the fresh parameter names it drew, which only such a declaration could observe)
             spec = calls.gen_call(tape, len(pool), lambda i: pool[i], symbols, richgen, ctx,
-                                  exclude=("declare_freshlike",))
+                                  exclude=("declare_freshlike", "rewriter_long", "build_noncurrent"))
             spec["op"] = "call"
             ops.append(spec)
         elif k == "parse":
@@ -338,6 +344,8 @@ def describe(plan):
             d = {k: (bp.pretty(v) if isinstance(v, list) and v and isinstance(v[0], str) and k in ("a", "b", "key", "val", "t", "f") else v)
                  for k, v in o.items() if k not in ("op", "kind")}
             out.append("A only (must fail): %s %s" % (o["kind"], d))
+        elif o["op"] == "print_long":
+            out.append("A,B: long-lived %s printer prints pool[%d]" % (o["printer"], o["i"] % len(plan["pool"])))
         elif o["op"] == "hr":
             out.append("A,B: declare %s; hr_parser.parse(%r)" % (o["name"], o["text"]))
         elif o["op"] == "parse":
@@ -572,6 +580,14 @@ def execute(plan, tape):
                     state["nontrivial"] = True
                     probe("parser_reused_after_failed_parse")
                 trace.append(("parse", ra[0]))
+            elif kind == "print_long":
+                term = pool[o["i"] % len(pool)]
+                ra, rb = [on(s_, lambda s_=s_: _print_long(s_, o["printer"], bp.build(term, s_.env))) for s_ in (A, B)]
+                same("printer." + o["printer"], ra, rb, term, "a long-lived printer object")
+                if "printer" in state["obj_failed"]:
+                    state["nontrivial"] = True
+                    probe("printer_used_after_failed_print")
+                trace.append(("print_long", o["printer"], ra[0]))
             elif kind == "hr":
                 def do(side):
                     # the name exists now (it may have been undefined when an earlier parse failed)
@@ -722,6 +738,11 @@ def execute(plan, tape):
                                     for name, r in log if name in ("check-sat", "get-objectives")]
                         pa, pb = on(A, lambda: ev(A)), on(B, lambda: ev(B))
                         same("script.evaluate", pa, pb, None, "the script evaluated on a new solver after an aborted evaluation")
+                    if fk == "printer_unsupported":
+                        state["obj_failed"].add("printer")
+                    if fk == "solver_pop_too_many":
+                        state["obj_failed"].add("solver")
+                        probe("pop_beyond_depth_refused")
                     if fk == "solver_reset_refused":
                         state["obj_failed"].add("solver")
                         probe("reset_refused_by_backend")
@@ -791,6 +812,26 @@ def _declared_by_wellformed_command(msg, texts):
                 if sx[0].name == "define-fun" and len(sx) == 5:
                     return True
     return False
+
+
+PRINTERS = ["smt_dag", "smt_tree", "hr"]
+
+
+def _print_long(side, kind, formula):
+    """print with the side's long-lived printer object of that kind; -> the text this call emitted"""
+    if not hasattr(side, "printers"):
+        side.printers = {}
+    if kind not in side.printers:
+        from pysmt.smtlib.printers import SmtDagPrinter, SmtPrinter
+        from pysmt.printers import HRPrinter
+        buf = StringIO()
+        cls = {"smt_dag": SmtDagPrinter, "smt_tree": SmtPrinter, "hr": HRPrinter}[kind]
+        side.printers[kind] = (cls(buf), buf) if kind != "hr" else (cls(buf, side.env), buf)
+    pr, buf = side.printers[kind]
+    start = len(buf.getvalue())
+    pr.printer(formula)
+    # (compared after re-parsing: the order of the stores of an array value depends on addresses)
+    return ("hr-text" if kind == "hr" else "smt-text", buf.getvalue()[start:])
 
 
 def _script_solver(side, tape, fail):
@@ -993,6 +1034,11 @@ def _fault_fn(o, term, symbols, user, side, tape):
             # the solver gives up at its first check: the evaluation stops after the objectives were read
             return side.escript.evaluate(_script_solver(side, tape, fail=True))
         return fn, None
+    if fk == "printer_unsupported":
+        return (lambda: _print_long(side, o["printer"], bp.build(o["t"], env))), None
+    if fk == "solver_pop_too_many":
+        # more levels than there are: the back end refuses, nothing may have been popped
+        return (lambda: side.solver.pop(side.sdepth + 1 + (1 if side.solver.pending_pop else 0))), None
     if fk == "solver_reset_refused":
         def fn():
             side.solver.fault_plan["refuse_next_reset"] = True
